@@ -255,6 +255,12 @@ class UserAttributeSubPackets(SubPackets):
         _bytes = bytearray()
         for uhsp in self._unhashed_sp.values():
             _bytes += uhsp.__bytearray__()
+
+        if self._unhashed_raw is not None and _bytes == getattr(self, '_parsed_as', None):
+            # nothing was changed since the subpackets were received: they are written as they came
+            # (length encodings included) - that is what certifications of this attribute cover
+            return bytearray(self._unhashed_raw)
+
         return _bytes
 
     def __len__(self):  # pragma: no cover
@@ -264,8 +270,13 @@ class UserAttributeSubPackets(SubPackets):
         # parse just one packet and add it to the unhashed subpacket ordereddict
         # I actually have yet to come across a User Attribute packet with more than one subpacket
         # which makes sense, given that there is only one defined subpacket
+        raw = self._unhashed_raw if (self._unhashed_raw is not None or not self._unhashed_sp) else False
+        before = bytes(packet)
         sp = UserAttribute(packet)
         self[sp.__class__.__name__] = sp
+        if raw is not False:
+            self._unhashed_raw = (raw or bytearray()) + before[:len(before) - len(packet)]
+            self._parsed_as = bytearray().join(uhsp.__bytearray__() for uhsp in self._unhashed_sp.values())
 
 
 class Signature(MPIs):
